@@ -34,7 +34,7 @@ SPEC = {
              "function call with at least one array argument"),
     "boundscheck": {"quick": False, "thorough": True},
     "case_timeout": 240.0,
-    "deciding_monitors": ["Linop.apply:checked", "Prox.__call__:contract"],
+    "deciding_monitors": ["Linop.apply:checked", "Prox.__call__:contract", "in:layout:F", "in:layout:strided", "in:readonly", "in:complex64"],
     "assumptions": ["byte-level comparison (blake2b) of arrays up to 16 MiB, strided sample "
                     "above", "CPU/numpy backend"],
 }
